@@ -27,7 +27,7 @@ CLAIM = (
     "whole space (U^H U = I on the full delta basis), additive in the shift vector, and equal to a circular roll for integer shifts (torch and "
     "NumPy variants); the propagators read from Ptychography.propagators are unit-modulus, the propagation they induce is unitary on the full "
     "basis, additive in the distance and inverted by the negative distance; sum_patches is exactly the transpose of patch extraction for index "
-    "sets with wrap-around and repeats (matrix equality on both bases); for pure-phase and potential objects the summed predicted intensity of "
+    "sets with wrap-around and repeats (matrix equality on both bases; exact hit counts and inner products for index sets of 2^12..2^17 patch pixels around block boundaries); for pure-phase and potential objects the summed predicted intensity of "
     "every pattern equals the probe's total intensity for 1..4 slices and 1..3 modes; fourier_projection returns a wave whose detector "
     "amplitude equals the measured amplitudes and is idempotent, single and mixed state. Exhaustive lattice exploration with the linearity "
     "argument is the right level: the data quantifier is closed by the basis, the defects live in shape parity, axis order and index handling."
@@ -37,7 +37,7 @@ NOTE = (
     "parameters (shifts on a 1/4-pixel grid, five thicknesses, two tilts, two energies). Tolerance 1e-5 for the linear-operator identities (phase ramps and propagators are built in "
     "complex64 even for complex128 input; worst observed 4e-7), 3e-5 for the complex64 forward chain (observed 8e-7), 2e-5 for the projection (4e-7). Negative slice thicknesses are rejected by the public setters, so the "
     "inverse-distance identity uses the internal seam ProbeBase._compute_propagator_arrays when present. Overlap arrays whose Fourier transform "
-    "vanishes exactly (zero/constant arrays: the phase to keep is undefined) are outside the projection alphabet. The closed-form Fresnel kernel is "
+    "vanishes somewhere (zero, constant, hard-aperture waves) are in the projection alphabet for one mode and outside it for mixed states (no mode direction is defined there). The closed-form Fresnel kernel is "
     "compared for information only (stat max_fresnel_kernel_dev): the property states group identities, not kernel values."
 )
 RULE = (
@@ -381,6 +381,82 @@ def w_adjoint(item, seed=0):
     return t
 
 
+# ----------------------------------------------------------------------------- B2. gather / scatter at sizes around block boundaries
+# A size threshold inside the scatter (blocked index_add, int32 offsets, ...) is invisible to small index sets, so the SIZE of the index
+# set is a lattice dimension of its own: total patch-pixel counts just below, exactly at and just above 2**12, 2**14, 2**16 and 2**17,
+# as flat index vectors (2**k - 1, 2**k, 2**k + 1: a single dropped pixel is visible) and as raster sets of large patches with
+# wrap-around and repeated patches. No delta basis here (the small geometries above have it): exact hit counts + inner products.
+def large_specs():
+    specs = []
+    for k in (12, 14, 16, 17):
+        for d in (-1, 0, 1):
+            specs.append({"name": f"flat_2^{k}{d:+d}", "flat": 2**k + d, "objshape": [64, 61]})
+    for J, R, C in [(1, 64, 64), (1, 63, 65), (1, 64, 65), (4, 64, 64), (4, 64, 63), (5, 64, 64), (3, 73, 75), (15, 64, 68), (16, 64, 64), (16, 64, 65), (17, 64, 64), (21, 64, 64), (40, 48, 50), (5, 128, 128), (8, 128, 128), (9, 128, 128), (33, 64, 64)]:
+        specs.append({"name": f"raster_{J}x{R}x{C}", "patches": J, "roi": [R, C], "objshape": [R + 6, C + 9]})
+    return specs
+
+
+def large_indices(spec):
+    H, W = spec["objshape"]
+    N = H * W
+    if "flat" in spec:
+        p = np.arange(spec["flat"], dtype=np.int64)
+        return ((p * 7 + p // N + (p % 5) * 11) % N).reshape(-1)  # every object pixel hit several times, unevenly
+    J, (R, C) = spec["patches"], spec["roi"]
+    # origins walk over the whole object incl. its edges (wrap-around); every fourth patch repeats its predecessor
+    origins = [((3 * (j - (j % 4 == 3))) * 5 % H, (7 * (j - (j % 4 == 3))) * 3 % W) for j in range(J)]
+    return raster_indices((H, W), (R, C), origins)
+
+
+def judge_adjoint_large(t, spec, seed):
+    torch = _torch()
+    from quantem.diffractive_imaging.object_models import ObjectPixelated
+    from quantem.diffractive_imaging.ptycho_utils import sum_patches
+
+    H, W = spec["objshape"]
+    N = H * W
+    idx = large_indices(spec)
+    P = int(idx.size)
+    case = {"kind": "adjoint_large", "spec": spec}
+    where = f"index set {spec['name']} ({P} patch pixels = 2^{math.log2(P):.3f}) on object {H}x{W}"
+    hist = np.bincount(idx.reshape(-1), minlength=N).reshape(H, W)
+    t.case(key=case, nontrivial=True, outcome=[spec["name"], P, int(hist.max())])
+    cls = {"patch_pixels_above_2^16": P > 2**16, "patch_pixels_above_2^12": P > 2**12}
+    ti = torch.tensor(idx, dtype=torch.int32)
+    for dtype, coef in (("float64", 1.0), ("float32", 1.0), ("complex128", 1.0 + 2.0j), ("complex64", 1.0 - 0.5j)):
+        with library("sum_patches"):
+            got = sum_patches(torch.full(idx.shape, coef, dtype=getattr(torch, dtype)), ti, (H, W)).numpy()
+        d = np.abs(got - coef * hist)
+        if got.shape != (H, W) or float(d.max()) != 0.0:  # small integers times an exactly representable coefficient: exact in every dtype
+            k = np.unravel_index(int(np.argmax(d)), d.shape)
+            t.fail({"relation": "sum_patches_hit_count", "dtype": dtype, **cls}, case, f"{where} {dtype}: sum_patches(const) differs from the histogram of the indices in {int((d > 0).sum())} object pixels (total {abs(got.sum() / coef):.0f} of {P} patch pixels scattered; pixel {tuple(int(v) for v in k)}: {got[k]} vs {coef * hist[k]})")
+    rng = np.random.default_rng([seed, 16, 6, P, H, W])
+    x = torch.tensor(rng.normal(size=(2, H, W)) + 1j * rng.normal(size=(2, H, W)))
+    y = torch.tensor(rng.normal(size=(2, *idx.shape)) + 1j * rng.normal(size=(2, *idx.shape)))
+    om = ObjectPixelated.from_uniform(num_slices=2, slice_thicknesses=1.0, obj_type="complex", rng=int(seed) + 7)
+    fn = getattr(om, "_get_obj_patches", None)
+    with library("_get_obj_patches/sum_patches"):
+        if fn is not None:
+            g = fn(x, ti)
+        else:  # extraction is plain indexing (relation patch_extraction_is_indexing, decided on the full basis above)
+            t.extra["seam_missing__get_obj_patches"] += 1
+            g = x.reshape(2, -1)[:, torch.tensor(idx)]
+        lhs = complex((g.conj() * y).sum())
+        rhs = complex(sum((x[s].conj() * sum_patches(y[s], ti, (H, W))).sum() for s in range(2)))
+    e = abs(lhs - rhs) / max(abs(lhs), 1e-30)
+    t.stat("adjoint_large_inner_product_rel_dev", e)
+    if e > 1e-10:
+        t.fail({"relation": "adjoint_inner_product", "repeated_indices": True, **cls}, case, f"{where}: <gather(x), y> = {lhs:.10g} but <x, sum_patches(y)> = {rhs:.10g} (relative difference {e:.3g})")
+
+
+@guarded
+def w_adjoint_large(item, seed=0):
+    t = Tally()
+    judge_adjoint_large(t, item, seed)
+    t.sample({"kind": "adjoint_large", "spec": item, "patch_pixels": int(large_indices(item).size)}, cap=2)
+    return t
+
+
 # ----------------------------------------------------------------------------- tiny real reconstruction objects
 def wavelength(energy):
     h, m0, e, c = 6.62607015e-34, 9.1093837015e-31, 1.602176634e-19, 299792458.0
@@ -595,9 +671,37 @@ def w_forward(item, seed=0):
 
 # ----------------------------------------------------------------------------- E. Fourier-magnitude projection
 AMP_KINDS = ["positive", "with_zeros", "all_zero"]
+# Exit waves whose spectrum vanishes (exactly, or up to FFT round-off) where the data do not: vacuum scan with a hard aperture, an empty
+# pattern in the batch, a plane wave. Single-mode only: there the kept phase is angle(0) = 0 / the round-off phase and the result is exact.
+OVERLAP_KINDS_DEGENERATE = ["zero", "constant", "aperture_disc", "mixed_batch"]
 
 
-def judge_projection(t, pt, roi, M, akind, scale, dtype, k, seed):
+def make_overlap(okind, M, B, roi, scale, rng):
+    R, C = roi
+    dense = (rng.normal(size=(M, B, R, C)) + 1j * rng.normal(size=(M, B, R, C))) * scale
+    if okind == "dense":
+        return dense
+    if okind == "zero":
+        return np.zeros_like(dense)
+    const = np.array([0.7 - 0.4j, -1.1 + 0.2j, 0.3j])[:B].reshape(1, B, 1, 1) * scale * np.ones((M, B, R, C))
+    if okind == "constant":
+        return const
+    kr = np.fft.fftfreq(R)[:, None]
+    kc = np.fft.fftfreq(C)[None, :]
+    disc = (kr**2 + kc**2) <= 0.3**2  # hard aperture: exact zeros outside
+    spec = disc * np.exp(1j * rng.uniform(-np.pi, np.pi, (M, B, R, C))) * scale * np.sqrt(R * C / disc.sum())
+    aperture = np.fft.ifft2(spec, norm="ortho")
+    if okind == "aperture_disc":
+        return aperture
+    if okind == "mixed_batch":  # an empty pattern, a dense one and a plane wave in one batch
+        out = dense.copy()
+        out[:, 0] = 0.0
+        out[:, B - 1] = const[:, B - 1]
+        return out
+    raise ValueError(okind)
+
+
+def judge_projection(t, pt, roi, M, akind, scale, dtype, k, seed, okind="dense"):
     torch = _torch()
     R, C = roi
     B = 3
@@ -608,10 +712,10 @@ def judge_projection(t, pt, roi, M, akind, scale, dtype, k, seed):
         A[1, R // 2, C // 2] = 0.0
     elif akind == "all_zero":
         A[:] = 0.0
-    x = (rng.normal(size=(M, B, R, C)) + 1j * rng.normal(size=(M, B, R, C))) * scale
-    case = {"kind": "projection", "roi": list(roi), "M": M, "amplitudes": akind, "scale": scale, "dtype": dtype, "k": k}
-    cls = {"roi_odd_axis": bool(R % 2 or C % 2), "modes": "single" if M == 1 else "mixed"}
-    where = f"fourier_projection roi={roi} modes={M} amplitudes={akind} scale={scale} {dtype} k={k}"
+    x = make_overlap(okind, M, B, roi, scale, rng)
+    case = {"kind": "projection", "roi": list(roi), "M": M, "amplitudes": akind, "scale": scale, "dtype": dtype, "k": k, "overlap": okind}
+    cls = {"roi_odd_axis": bool(R % 2 or C % 2), "modes": "single" if M == 1 else "mixed", "spectrum_has_zeros": okind != "dense"}
+    where = f"fourier_projection roi={roi} modes={M} overlap={okind} amplitudes={akind} scale={scale} {dtype} k={k}"
     At = torch.tensor(A, dtype=torch.float32 if dtype == "complex64" else torch.float64)
     xt = torch.tensor(x, dtype=getattr(torch, dtype))
     with library("fourier_projection"), torch.no_grad():
@@ -644,6 +748,9 @@ def w_proj(item, seed=0, nseeded=2):
         raise Broken("builder did not produce the requested number of probe modes")
     for akind, scale, dtype, k in itertools.product(AMP_KINDS, [1.0, 30.0], ["complex64", "complex128"], range(nseeded)):
         judge_projection(t, pt, roi, M, akind, scale, dtype, k, seed)
+    if M == 1:
+        for okind, akind, scale, dtype in itertools.product(OVERLAP_KINDS_DEGENERATE, ["positive", "with_zeros"], [1.0, 30.0], ["complex64", "complex128"]):
+            judge_projection(t, pt, roi, M, akind, scale, dtype, 0, seed, okind)
     t.sample({"kind": "projection", "roi": list(roi), "M": M, "amplitude_kinds": AMP_KINDS}, cap=1)
     return t
 
@@ -659,8 +766,13 @@ def run(ctx):
         "Fourier translation, propagation and patch gather/scatter are linear in the data, so matrix identities on the full delta basis hold for every array of that shape (linearity itself is cross-checked on seeded stacks)",
         "continuous parameters stay on grids: integer shifts in [-3,3]^2 and a 1/4-pixel grid in [-1,1]^2 (thorough: [-4,4]^2 and 1/8 pixel); additivity pairs: every shift x the half-pixel grid plus six further vectors (thorough: every shift x the 121-vector quick alphabet); thicknesses {+-0.5, +-3, 20} A; tilts {0, (3,-2) mrad}; energies {80, 300 keV}",
         "non-positive slice thicknesses are rejected by the public setters; signed distances use the internal seam ProbeBase._compute_propagator_arrays (kernels installed through the public propagators setter) when it exists",
+        "a size threshold inside an operator is only visible if the size alphabet straddles it: the scatter/gather pair is additionally run on index sets whose total patch-pixel count sits just below, at and just "
+        "above 2^12, 2^14, 2^16 and 2^17 (flat index vectors 2^k-1, 2^k, 2^k+1 and raster sets of large patches with wrap-around and repeats), judged by exact hit counts and the inner-product identity, not by a delta basis; "
+        "thresholds elsewhere (above 2^17 + 2^14 patch pixels, or in other operators) are not explored",
         "the measured amplitudes are detector-centred; the amplitude of the projected wave is read with the library's own DetectorPixelated.forward",
-        "overlap arrays whose Fourier transform vanishes exactly somewhere (zero or constant arrays: the phase to keep is undefined, the mixed-state path regularises with eps=1e-9) are outside the projection alphabet",
+        "overlap arrays whose Fourier transform vanishes somewhere (zero, constant, hard-aperture waves) ARE in the single-mode projection alphabet: there the library keeps angle(0) = 0 (or the round-off phase) and the "
+        "result has exactly the measured amplitudes. For two or more modes they stay outside: the direction in mode space that should carry the measured amplitude is undefined where every mode's coefficient "
+        "vanishes, and the mixed-state formula measured/|F+eps|*F returns 0 (or round-off-dependent values) there on the unchanged tree, so no exact statement exists to demand",
         "pure-phase intensity conservation presupposes |obj| = 1, i.e. no field-of-view mask applied (C10 known finding)",
         "tolerances: 1e-5 for the linear-operator identities (phase ramps and propagators are complex64 even for complex128 data), 3e-5 for the complex64 forward chain, 2e-5 for the projection",
         "the closed-form Fresnel kernel is compared for information only (max_fresnel_kernel_dev), kernel values are the subject of C02",
@@ -692,12 +804,16 @@ def run(ctx):
         "modes": [1, 2, 3],
         "pure_phase_object_types": ["pure_phase", "potential"],
         "measured_amplitudes": AMP_KINDS,
+        "projection_overlaps": {"all mode counts": ["dense seeded"], "single mode only": OVERLAP_KINDS_DEGENERATE},
     }
     items = [(roi, impl, pd, ai) for roi in ROIS for impl, pd in impls for ai in range(len(shifts))]
     ctx.pmap(w_shift, items, label="Fourier translation (full basis)", seed=ctx.seed, quick=q)
     rois2 = ROIS if q else ROIS + ROIS_EXTRA
     ctx.coverage["alphabet"]["roi_other_parts"] = [list(r) for r in rois2]
     ctx.pmap(w_adjoint, list(itertools.product(rois2, GEOMS)), chunk=1, label="gather/scatter adjoint (full bases)", seed=ctx.seed)
+    specs = large_specs()
+    ctx.coverage["alphabet"]["adjoint_size_dimension"] = [{"name": sp["name"], "patch_pixels": int(large_indices(sp).size), "objshape": sp["objshape"]} for sp in specs]
+    ctx.pmap(w_adjoint_large, specs, chunk=1, label="gather/scatter adjoint (sizes around 2^12..2^17)", seed=ctx.seed)
     ctx.pmap(w_prop, list(itertools.product(rois2, ENERGIES, TILTS)), chunk=1, label="propagation (full basis)", seed=ctx.seed)
     et = list(itertools.product(ENERGIES, TILTS))
     ctx.coverage["alphabet"]["forward_energy_tilt"] = [[e, list(x)] for e, x in et]
@@ -725,6 +841,8 @@ def replay(ctx, case):
         judge_shift_stack(t, tuple(case["roi"]), case["impl"], case["pos_dtype"], case["dtype"], seed)
     elif k == "adjoint":
         t = w_adjoint((case["roi"], case["geometry"]), seed=seed)
+    elif k == "adjoint_large":
+        judge_adjoint_large(t, case["spec"], seed)
     elif k == "prop":
         t = w_prop((case["roi"], case["energy"], case["tilt"]), seed=seed)
         keep = [f for f in t.fails if f["case"].get("a") == case.get("a") and f["case"].get("b") == case.get("b") and f["case"].get("part") == case.get("part")]
@@ -736,7 +854,7 @@ def replay(ctx, case):
     elif k == "projection":
         roi = tuple(case["roi"])
         pt = build(roi, 1, case["M"], "complex", 80e3, (0.0, 0.0), seed)
-        judge_projection(t, pt, roi, case["M"], case["amplitudes"], case["scale"], case["dtype"], case["k"], seed)
+        judge_projection(t, pt, roi, case["M"], case["amplitudes"], case["scale"], case["dtype"], case["k"], seed, case.get("overlap", "dense"))
     for f in t.fails:
         print("  ", f["msg"])
         ctx.fail(f["cls"], f["case"], f["msg"])
